@@ -23,7 +23,8 @@ RULE = (
     "reference masked NumPy object array; after every step each backend is compared with the reference. "
     "Exhaustive campaign: for all geometries of rank <= 2 with sizes <= 2 (thorough: rank 3 sizes <= 2, rank 2 "
     "sizes <= 3), every subset of written external positions and every key tuple over {ints, negative ints, ':', "
-    "'0:1', '1:', '::-1', '::2', first out-of-range int}. Non-trivial = geometry with an internal axis and two axes "
+    "'0:1', '1:', '::-1', '::2', first out-of-range int} (external shapes with more than 4 positions: a fixed family of "
+    "written-sets - none, all, singles, all-but-one, stripes, halves - instead of every subset). Non-trivial = geometry with an internal axis and two axes "
     "of different size, history with >= 1 slice key and >= 1 read of an unwritten position; distinct by sha1 of the "
     "history (exhaustive campaign: per (geometry, written-set))."
 )
@@ -362,7 +363,14 @@ def enum_tiny(tier):
         for sizes, mask in geoms:
             ext = [s for s, m in zip(sizes, mask) if m]
             positions = list(itertools.product(*map(range, ext)))
-            for bits in range(2 ** len(positions)):
+            npos = len(positions)
+            if npos <= 4:
+                patterns = range(2**npos)
+            else:  # representative written-sets for larger external shapes (all / none / singles / stripes / halves)
+                full = 2**npos - 1
+                patterns = sorted({0, full, 0x55555555 & full, 0xAAAAAAAA & full, full >> (npos // 2), full & ~(full >> (npos // 2)),
+                                   *[1 << k for k in range(npos)], *[full & ~(1 << k) for k in range(npos)]})
+            for bits in patterns:
                 yield {"sizes": sizes, "mask": mask, "written": [list(p) for k, p in enumerate(positions) if bits >> k & 1]}
 
     return gen
@@ -453,7 +461,7 @@ def body_tiny(data) -> Outcome:
 
 def campaigns(tier):
     return [
-        Campaign("history", body_history, histories(), quick=1600, thorough=40000,
+        Campaign("history", body_history, histories(), quick=1600, thorough=24000,
                  describe="random operation histories on all registered backends"),
         Campaign("tiny", body_tiny, enumerate=enum_tiny(tier), quick=0, thorough=0, exhaustive=True,
                  describe="exhaustive key alphabets on tiny geometries (dict + file_array)"),
